@@ -284,6 +284,60 @@ func genC10(c *Ctx) {
 		c.add("speccompact", hx(ns), joinHexList(txs))
 		c.add("speccompactix", hx(ns), joinHexList(txs))
 	}
+	// a streaming caller that REUSES one 29-byte buffer for the namespaces of consecutive blobs: each blob's
+	// namespace is a view of that buffer, and the buffer already holds the next namespace when the padding
+	// behind the previous blob is requested (the order Builder.Export uses: padding first, next blob after)
+	for i := 0; i < 10; i++ {
+		nssL := blobNamespaces(r, 3)
+		buf := make([]byte, 29)
+		sss := share.NewSparseShareSplitter()
+		var ref [][]byte
+		desc := ""
+		okAll := true
+		for j, ns := range nssL {
+			copy(buf, ns)
+			nsv, err := share.NewNamespaceFromBytes(buf)
+			if err != nil {
+				okAll = false
+				break
+			}
+			ver := uint8(r.Intn(2))
+			var signer []byte
+			if ver == 1 {
+				signer = randSigner(r)
+			}
+			data := r.Bytes(sparseLen(r, 1500))
+			blob, err := share.NewBlob(nsv, data, ver, signer)
+			if err != nil || sss.Write(blob) != nil {
+				okAll = false
+				break
+			}
+			ref = append(ref, refSparse(ns, ver, signer, data)...)
+			if j+1 < len(nssL) {
+				copy(buf, nssL[j+1])
+			} else {
+				for q := range buf {
+					buf[q] = 0xee
+				}
+			}
+			k := r.Intn(3)
+			if sss.WriteNamespacePaddingShares(k) != nil {
+				okAll = false
+				break
+			}
+			for q := 0; q < k; q++ {
+				ref = append(ref, refPadding(ns, ver))
+			}
+			desc += fmt.Sprintf("v%d len %d pad %d; ", ver, len(data), k)
+		}
+		if !okAll {
+			continue
+		}
+		c.check(eqShares(ref, sss.Export()), "SparseShareSplitter", "shares differ from the specified encoding when the caller reuses its namespace buffer between a blob and the padding behind it",
+			map[string]any{"sequence": desc})
+		c.count("namespace_buffer_reuse")
+		c.goOnly++
+	}
 	// every first-unit offset: for each position p of a continuation share's payload (reserved bytes =
 	// 34+p, incl. the values with a zero low byte such as 256) a unit crossing in from the previous share
 	// ends at p, and two more units start later in the same share (they must not overwrite the reserved bytes)
@@ -321,7 +375,7 @@ func genC10(c *Ctx) {
 	{
 		lists, _ := veryLongUnitLists(r)
 		for li, txs := range lists {
-			if c.tier == "quick" && li%3 != int(r.U64()%3) {
+			if c.tier == "quick" && li >= 3 && li%3 != int(r.U64()%3) {
 				continue
 			}
 			ns := share.TxNamespace.Bytes()
@@ -363,6 +417,7 @@ func genC10(c *Ctx) {
 			c.mark(fmt.Sprintf("craft %s %d %d", hx(ns[27:]), info, rv))
 		}
 	}
+	helperCases(c)
 }
 
 // craftShare: ns | info | (seq len when start) | (signer when v1 start) | reserved value | random payload
@@ -647,6 +702,7 @@ func genC09(c *Ctx) {
 	}()
 	c.rule = "tx lists (1-12 txs; lengths from exact-fill, prefix-straddle, varint-width and random families) for both compact namespaces; written, counted, exported, parsed; non-trivial = distinct length list spanning more than one share"
 	r := c.rng
+	c09NamespaceViews(c, r)
 	nRandom := 400 * c.scale
 	// Go side only: single very long units on the varint-width boundaries 2^14 and 2^21 (and 2^20), alone and
 	// between small transactions, ending on / one byte past a share boundary
@@ -724,13 +780,59 @@ func genC09(c *Ctx) {
 	}
 }
 
+// c09NamespaceViews (Go side only): the compact splitter is given a namespace whose 29 bytes are a view into a
+// larger buffer (what Share.Namespace() and NewNamespaceFromBytes return): the shares must be the same as with
+// a constructor-made namespace, and the bytes behind the view must stay untouched.
+func c09NamespaceViews(c *Ctx, r *Rng) {
+	for i := 0; i < 12; i++ {
+		ns := share.TxNamespace.Bytes()
+		if i%2 == 1 {
+			ns = share.PayForBlobNamespace.Bytes()
+		}
+		buf := make([]byte, 29+700)
+		copy(buf, ns)
+		for j := 29; j < len(buf); j++ {
+			buf[j] = 0xee
+		}
+		nsv, err := share.NewNamespaceFromBytes(buf[:29])
+		if err != nil {
+			continue
+		}
+		txs := compactTxList(c, r, 2+r.Intn(5))
+		css := share.NewCompactShareSplitter(nsv, 0)
+		for _, t := range txs {
+			_ = css.WriteTx(t)
+		}
+		shs, err := css.Export()
+		wit := map[string]any{"ns": hx(ns[28:]), "tx_lens": lensOf(txs), "namespace": "view into a 729-byte buffer"}
+		if !c.check(err == nil, "CompactShareSplitter.Export", "error", wit) {
+			continue
+		}
+		ref, _ := refCompact(ns, txs)
+		c.check(eqShares(ref, shs), "CompactShareSplitter", "shares differ from the specified encoding when the namespace is a view into a larger buffer", wit)
+		parsed, err := share.ParseTxs(shs)
+		same := err == nil && len(parsed) == len(txs)
+		for j := 0; same && j < len(txs); j++ {
+			same = bytes.Equal(parsed[j], txs[j])
+		}
+		c.check(same, "ParseTxs", "parsed transactions differ from the transactions written", wit)
+		clean := bytes.Equal(buf[:29], ns)
+		for j := 29; clean && j < len(buf); j++ {
+			clean = buf[j] == 0xee
+		}
+		c.check(clean, "CompactShareSplitter", "wrote into the buffer behind its namespace argument", wit)
+		c.count("namespace_view_splitter")
+		c.goOnly++
+	}
+}
+
 // veryLongUnitLists (Go side only): a transaction of >= 1 MiB (and one of >= 2 MiB) whose length prefix
 // starts 1, 2 or 3 bytes before a share end (so the prefix ends exactly at the boundary or straddles it),
 // preceded and followed by small transactions.  Returns the lists and, per list, the index of the long one.
 func veryLongUnitLists(r *Rng) ([][][]byte, []int) {
 	var lists [][][]byte
 	var pos []int
-	for _, size := range []int{1 << 20, 1<<20 + 12345, 1<<21 + 3} {
+	for _, size := range []int{70000, 1 << 20, 1<<20 + 12345, 1<<21 + 3} { // the first three lists (70 000 bytes) always run
 		for back := 1; back <= 3; back++ {
 			lead := 474 - back // stream bytes before the long unit
 			first := r.Bytes(lead - 2)
@@ -791,7 +893,7 @@ func genC11(c *Ctx) {
 	{
 		lists, pos := veryLongUnitLists(r)
 		for li, txs := range lists {
-			if c.tier == "quick" && li%3 != int(r.U64()%3) {
+			if c.tier == "quick" && li >= 3 && li%3 != int(r.U64()%3) {
 				continue
 			}
 			css := share.NewCompactShareSplitter(share.TxNamespace, 0)
@@ -799,7 +901,7 @@ func genC11(c *Ctx) {
 				_ = css.WriteTx(t)
 			}
 			shs, err := css.Export()
-			if !c.check(err == nil && len(shs) > 2000, "CompactShareSplitter.Export", "error on a very long transaction", map[string]any{"tx_lens": lensOf(txs)}) {
+			if !c.check(err == nil && len(shs) > 140, "CompactShareSplitter.Export", "error on a very long transaction", map[string]any{"tx_lens": lensOf(txs)}) {
 				continue
 			}
 			n := len(shs)
